@@ -209,6 +209,18 @@ def reject_cases(rng, n_trees):
                     # of the two comes first this is ordered-then-unordered or unordered-then-ordered, at any distance
                     set_leaf(tree, pth, flipped)
                     k = "conflict:" + ("ord_first" if (ol["opener"] == "next") == (other < pth) else "any_first")
+                    # every third one (derived from the position, the random stream stays as it was): the UNORDERED one of the two
+                    # clauses is written as a non-empty `stub(|each| ..)` of one or two patterns - the stub's patterns reach the
+                    # assembler by the same Sink, and the mode comparison must hold for them too, in both orders
+                    if len(out) % 3 == 0:
+                        def as_stub(leaf):
+                            pats = [leaf["pat"]] + ([json.loads(json.dumps(leaf["pat"]))] if len(out) % 2 == 0 else [])
+                            return {"kind": "stub", "mid": leaf["mid"], "pats": pats}
+                        if ol["opener"] == "next":
+                            set_leaf(tree, pth, as_stub(flipped))
+                        else:
+                            set_leaf(tree, other, as_stub(ol))
+                        k = "conflict_stub:" + k.split(":")[1]
                 elif kind == "empty_stub":
                     set_leaf(tree, pth, {"kind": "stub", "mid": rng.choice(VAL_MIDS), "pats": []})
                     k = "empty_stub"
